@@ -226,8 +226,7 @@ def check_shared(ctx, nodes, focus, tag, routes):
                 ctx.count('refs:%d' % len(nodes[i][2]))
                 ds = [spec[j].D[0] for j in nodes[i][2] if spec[j] is not None and spec[j].valid]
                 if len(ds) == len(nodes[i][2]) and len(ds) >= 2:
-                    top = max(ds)
-                    ctx.count('sibling-depth-bytes:' + min(G.byte_relation(top, d) for d in ds))     # '><' present = bytes cross
+                    ctx.count('sibling-depth-bytes:' + G.sibling_relation(ds))     # '><' = the bytes of the deepest and another child cross
             _judge(ctx, route, i, c, s, False if model is None else model[i], lambda i=i: _sub_input(nodes, i, tag))
     return spec
 
